@@ -41,6 +41,9 @@ func Scan(repo string) ([]Finding, error) {
 			timeName := ""
 			for _, im := range f.Imports {
 				p := strings.Trim(im.Path.Value, `"`)
+				if p == "golang.org/x/sync/errgroup" {
+					out = append(out, Finding{rel, fset.Position(im.Pos()).Line, "imports " + p + " (concurrent evaluation: which error is returned may depend on scheduling)"})
+				}
 				if p == "math/rand" || p == "math/rand/v2" {
 					out = append(out, Finding{rel, fset.Position(im.Pos()).Line, "imports " + p})
 				}
@@ -51,6 +54,12 @@ func Scan(repo string) ([]Finding, error) {
 					}
 				}
 			}
+			ast.Inspect(f, func(n ast.Node) bool {
+				if g, ok := n.(*ast.GoStmt); ok {
+					out = append(out, Finding{rel, fset.Position(g.Pos()).Line, "starts a goroutine (results may depend on scheduling)"})
+				}
+				return true
+			})
 			if timeName == "" {
 				return nil
 			}
